@@ -35,7 +35,7 @@ Probes == StringsUpTo({1, 2, 3, 4}, 2)
 
 MCNext ==
   \/ /\ Len(hist) = 0
-     /\ \E d \in Delims : ANew(<<>>, d) \/ \E r \in (IF Wide THEN OneSyn ELSE IF Tier # "quick" THEN ValidPool ELSE ArgPool) : ANew(<<r>>, d)
+     /\ \E d \in Delims : ANew(<<>>, d) \/ \E r \in (IF Wide THEN OneSyn ELSE ArgPool) : ANew(<<r>>, d)
   \/ /\ Len(hist) >= 1 /\ Len(hist) <= MaxOps /\ Len(convs) = 1
      /\ \E r \in ArgPool, cs \in BOOLEAN, mg \in BOOLEAN : AAdd(1, r, cs, mg, "record")
 MCSpec == Init /\ [][MCNext]_vars
